@@ -95,3 +95,14 @@ impl Rng {
         (0..n).map(|_| self.next() as u8).collect()
     }
 }
+
+/// CPU time consumed by the calling thread, in milliseconds
+pub fn thread_cpu_ms() -> u64 {
+    let mut ts = libc::timespec { tv_sec: 0, tv_nsec: 0 };
+    // SAFETY: plain syscall wrapper writing into a local timespec
+    let rc = unsafe { libc::clock_gettime(libc::CLOCK_THREAD_CPUTIME_ID, &mut ts) };
+    if rc != 0 {
+        return 0;
+    }
+    ts.tv_sec as u64 * 1000 + ts.tv_nsec as u64 / 1_000_000
+}
